@@ -226,7 +226,7 @@ Fixpoint items_to_mapping_lnotab (fuel : nat) (items : list citem) (max_offset :
     end.
 
 Definition lnotab_fuel (items : list citem) (max_offset : Z) : nat :=
-  Z.to_nat (max_offset / 2 + sumZ (map (fun it : citem => Z.abs (snd it)) items) / 2 + 2)
+  Z.to_nat (Z.max 0 max_offset / 2 + sumZ (map (fun it : citem => Z.abs (snd it)) items) / 2 + 2)
   + length items.
 
 Definition items_to_mapping (items : list citem) (max_offset : Z) (lt : bool) : res linemap :=
